@@ -252,6 +252,17 @@ func TestC20S(t *testing.T) {
 	})
 }
 
+// C17 (engine S part): node-level view of the height filter in generated cluster executions with membership changes between
+// heights, foreign-instance and future-height injections, replays to arbitrary nodes: nothing is stored for a height the node is
+// not at, and a node outside a height's committee neither stores nor sends anything for that height.
+func TestC17S(t *testing.T) {
+	o := simOpts{Focus: "C17", MaxN: 7, MaxHeight: 3, MaxSteps: 150, ByzBias: 85,
+		Strategies: []string{"replay", "replay", "replay", "prepare", "commit", "pp", "nv", "vc", "support"}}
+	simProperty(t, o, func(w *sim.World) bool {
+		return w.Obs.HeightsDone >= 2 && (len(w.Cfg.Absent) > 0 || w.Obs.ByzStored > 0)
+	})
+}
+
 // C11 thorough variant: at emission, every correct peer is cloned by replay and judged at once (see sim.cloneCheck).
 func TestC11Clone(t *testing.T) {
 	col := ev.Get("C11")
